@@ -115,6 +115,9 @@ class FormWorld:
             np=Obj("numpy", ndarray=NdArray, prod=lambda x, dtype=None: __import__("math").prod(x), ndindex=lambda *shape: list(itertools.product(*[range(d) for d in (shape[0] if len(shape) == 1 and isinstance(shape[0], (tuple, list)) else shape)]))),
         )
         ip.pytype_alias[ip.overrides["str"]] = str
+        # operator precedence only decides where str() puts parentheses: always parenthesise (the precedence
+        # table is built from the live class registry, which is outside the model)
+        ip.overrides["parstr"] = lambda child, parent, pre="(", post=")", format=None: "(" + self._str(child) + ")"
         ip.overrides.pop("Index", None)
         ip.overrides.pop("indices", None)
         ip.overrides.pop("as_ufl", None)
